@@ -99,7 +99,7 @@ func intervalOver(il *IPRequestLimiter, now time.Time) bool {
 // The middleware closure: the header reports the very numbers Inc returned to THIS request
 // (no second, unsynchronised read), the request is passed on only if Inc said ok and answered
 // 429 only if it did not, and Inc is the one place the counter is advanced.
-//@ func NewLimiterMiddleware$1$1
+//@ func NewLimiterMiddleware$1$fn
 //@   wiring
 //@   callsite Sprintf requires headerIsOwnCount: vararg0.(int) == count && vararg1.(int) == maxNr
 //@   callsite ServeHTTP requires passedOnlyIfOk: ok
